@@ -46,7 +46,7 @@ def strategy_(draw, thorough):
     nparts = draw(st.sampled_from([0, 1, 1, 2]))
     if nparts:
         base = draw(datasets.partitioned(value_kinds=VALUE_KINDS, max_parts=nparts, min_rows=1, schemes=("hive",),
-                                         pkinds=("int", "text", "bool", "category"), pnulls=False, max_value_cols=3))
+                                         pkinds=("int", "text", "bool", "category", "datetime", "float"), pnulls=False, max_value_cols=3))
     else:
         base = draw(frames.frame_and_options(kinds=VALUE_KINDS, schemes=("hive",), index=False, min_rows=1, max_cols=3))
         base["partition_on"] = []
